@@ -338,7 +338,8 @@ func vfFecRunIcpt(t *testing.T, sc *vfFecScript, out *vfWriter, concurrent bool)
 				"rebind": b.Rebind,
 			})
 		}
-		icpt.UnbindLocalStream(info)
+		unb := *info // an equal description at another address
+		icpt.UnbindLocalStream(&unb)
 	}
 	if concurrent {
 		var wg sync.WaitGroup
